@@ -948,6 +948,42 @@ fn model_verdict(r: &Req, c: &Cfg) -> Result<(Option<String>, usize), (&'static 
 
 static MODEL_EXPECTED: std::sync::Mutex<Option<(String, String)>> = std::sync::Mutex::new(None);
 static DIFF_HIST: std::sync::Mutex<Vec<(String, usize)>> = std::sync::Mutex::new(Vec::new());
+/// when a request the model accepts is refused (or vice versa at the signature rule): which section of the canonical request does the crate
+/// build differently from the model? (uses the crate's unstable API; the signed list is the model's)
+fn blame_sections(r: &Req, c: &Cfg) -> Vec<&'static str> {
+    use scratchstack_aws_signature::canonical::CanonicalRequest;
+    let mut uri = r.path.clone();
+    if !r.query.is_empty() { uri.push('?'); uri.push_str(&r.query); }
+    let mut b = Request::builder().method(r.method).uri(uri);
+    for (k, v) in &r.headers { b = b.header(k.as_str(), v.as_str()); }
+    let req = match b.body(Bytes::from(r.body.clone())) { Ok(q) => q, Err(_) => return vec![] };
+    let (parts, body) = req.into_parts();
+    let opt = SignatureOptions { s3: c.s3, url_encode_form: c.fold };
+    let real = match std::panic::catch_unwind(std::panic::AssertUnwindSafe(|| CanonicalRequest::from_request_parts(parts, body, opt))) { Ok(Ok((cr, _, _))) => cr, _ => return vec![] };
+    // the model's view
+    let path = match canon_path(r.path.as_bytes(), c.s3) { Some(p) => p, None => return vec!["C09"] };
+    let mut pairs = match parse_query(r.query.as_bytes()) { Some(p) => p, None => return vec!["C10"] };
+    let folded = c.fold && r.headers.iter().find(|h| h.0.to_lowercase() == "content-type").map(|h| trim_ws(h.1.as_bytes().split(|b| *b == b';').next().unwrap()) == b"application/x-www-form-urlencoded").unwrap_or(false);
+    if folded { if let Ok(t) = std::str::from_utf8(&r.body) { if let Some(bp) = parse_query(t.as_bytes()) { pairs.extend(bp); } } }
+    let mut out = Vec::new();
+    if real.canonical_path().as_bytes() != path.as_slice() { out.push("C09"); }
+    if real.canonical_query_string().as_bytes() != canon_query(&pairs).as_slice() { out.push("C10"); if folded { out.push("C12"); } }
+    // header block for ALL header names, sorted (what a signer covering every header would sign)
+    let mut names: Vec<String> = r.headers.iter().map(|h| h.0.to_lowercase()).collect();
+    names.sort(); names.dedup();
+    let creq = real.canonical_request(&names);
+    let text = String::from_utf8_lossy(&creq).to_string();
+    let mut model_block = String::new();
+    for nme in &names {
+        let vals: Vec<Vec<u8>> = r.headers.iter().filter(|h| h.0.to_lowercase() == *nme).map(|h| collapse_trim(h.1.as_bytes())).collect();
+        model_block.push_str(nme); model_block.push(':'); model_block.push_str(&String::from_utf8_lossy(&vals.join(&b','))); model_block.push('\n');
+    }
+    model_block.push('\n'); model_block.push_str(&names.join(";")); model_block.push('\n');
+    if !text.contains(&model_block) { out.push("C11"); }
+    if !text.ends_with(&sha_hex(if folded { b"" } else { &r.body })) { out.push("C12"); out.push("C01"); }
+    if !text.starts_with(&format!("{}\n", r.method)) { out.push("C01"); }
+    out
+}
 /// does the model reach the key provider (rules 1-13 pass), and with which session token?
 fn model_provider(r: &Req, c: &Cfg) -> (bool, Option<Vec<u8>>) {
     match model_verdict(r, c) {
@@ -1047,7 +1083,7 @@ fn search_differential(seed: u64, budget: usize, want: Option<&str>) -> (usize, 
         }
         // post-signing mutations (0-2)
         for _ in 0..pick(&mut x, 3) {
-            match pick(&mut x, 21) {
+            match pick(&mut x, 22) {
                 0 => { for h in r.headers.iter_mut() { if h.0 == "Authorization" { h.1.push('0'); } } }
                 1 => { r.headers.push(("X-Unsigned".into(), "v".into())); }
                 2 => { r.headers.push(("X-Amz-Meta-New".into(), "v".into())); }
@@ -1068,6 +1104,7 @@ fn search_differential(seed: u64, budget: usize, want: Option<&str>) -> (usize, 
                 16 => { for h in r.headers.iter_mut() { if h.0 == "Authorization" { h.1 = h.1.replace("Credential=", ["credential=", "Credential =", "Credential==", ",Credential="][pick(&mut x, 4)]); } } }
                 17 => { for h in r.headers.iter_mut() { if h.0 == "Authorization" { h.1 = h.1.replace("SignedHeaders=", "SignedHeaders=zz;"); } } }
                 18 => { for h in r.headers.iter_mut() { if h.0 == "Authorization" { if let Some(p) = h.1.find("Signature=") { let (a, b) = h.1.split_at(p + 10); h.1 = format!("{}{}", a, b.to_uppercase()); } } } }
+                20 => { r.headers.push(("Content-Length".into(), "7".into())); }
                 19 => { if let Some(p) = r.query.find("X-Amz-Signature=") { let (a, b) = r.query.split_at(p + 16); r.query = format!("{}{}", a, b.to_uppercase()); } }
                 _ => { r.method = if r.method == "GET" { "POST" } else { "GET" }; }
             }
@@ -1102,8 +1139,8 @@ fn search_differential(seed: u64, budget: usize, want: Option<&str>) -> (usize, 
         // which property a disagreement speaks about: the rule the model applied (a request it refuses is accepted), completeness (a request it
         // accepts is refused), precedence/taxonomy (both refuse, different kinds), pass-through (both accept, different returned request)
         let about: Vec<&str> = match (&real, &model) {
-            (Ok(_), Err(k)) => vec![k.1],
-            (Err(_), Ok(_)) => if folds_for_signer { vec!["C02", "C12"] } else { vec!["C02"] },
+            (Ok(_), Err(k)) => { let mut v = vec![k.1]; if k.1 == "C01" { v.extend(blame_sections(&r, &cfg)); } v }
+            (Err(_), Ok(_)) => { let mut v = vec!["C02"]; if folds_for_signer { v.push("C12"); } v.extend(blame_sections(&r, &cfg)); v }
             (Err(_), Err(k)) => vec!["C13", k.1],
             (Ok(_), Ok((muri, _))) => if muri.is_some() { vec!["C15", "C12"] } else { vec!["C15"] },
         };
